@@ -118,6 +118,31 @@ pub fn c14(h: &mut H) {
                     Some(c2) => h.expect(field(c2, "value") == want(&field(&iss.c, "value"), &bases, &k.n_mod) && c2["randomness"] == iss.c["randomness"], "C14.extend_pk", "extend_commitment_with_pk is not C * prod a_i^m_i over the revealed positions", &[h.last()]),
                     None => h.expect(false, "C14.extend_pk_panic", "extend_commitment_with_pk panicked on valid input", &[h.last()]),
                 }
+                // the same positions listed in DESCENDING order (values listed accordingly): the same product,
+                // and an issuance with the lists in that order yields a signature on the same vector
+                if iss.revealed_idx.len() >= 2 {
+                    let mut ri = iss.revealed_idx.clone();
+                    ri.reverse();
+                    let mut rv = revealed.clone();
+                    rv.reverse();
+                    let (e5, _) = call(h, "cl.extend", vec![iss.c.clone(), ivs(&rv), k.pk.clone(), ivs(&bases), uv(&ri)], vec![]);
+                    h.stat("C14.extend_pk_unsorted");
+                    match e5.ok() {
+                        Some(c2) => h.expect(field(c2, "value") == want(&field(&iss.c, "value"), &bases, &k.n_mod), "C14.extend_pk_unsorted", "extend_commitment_with_pk binds a revealed value to the wrong position when the positions are not listed in ascending order", &[h.last()]),
+                        None => h.expect(false, "C14.extend_pk_panic", "extend_commitment_with_pk panicked on valid input", &[h.last()]),
+                    }
+                    let bs2 = blindsign(h, &k, &bases, &iss.zk, &rv, &iss.c, ctv.as_ref(), iss.cpk.as_ref(), &hidden, &ri);
+                    let b2id = h.last();
+                    if let Some(b2) = bs2.ok().cloned() {
+                        let (sig2, _) = call(h, "cl.unblind", vec![b2, iss.c.clone()], vec![]);
+                        if let Some(sig2) = sig2.ok().cloned() {
+                            let v = verifym(h, &k.pk, &bases, &sig2, &iss.msgs);
+                            h.expect(v.is_true(), "C14.issued_verifies_unsorted", "signature issued with the revealed positions listed in descending order does not verify on the attribute vector", &[b2id, h.last()]);
+                        }
+                    } else {
+                        h.expect(false, "C14.blind_sign_unsorted", "blind_sign refused an honest request whose revealed positions are listed in descending order", &[b2id]);
+                    }
+                }
                 if let (Some(ct), Some(cp)) = (&iss.ct, &iss.cpk) {
                     let gs = gbases(cp);
                     let nn = field(cp, "N");
